@@ -15,6 +15,8 @@ pub const W5: &str = "id: w5\nsteps:\n  - id: s1\n    acts:\n      - uses: acts.
 pub const W9A: &str = "id: w9a\nsteps:\n  - id: s1\n    acts:\n      - uses: acts.core.block\n        key: blk\n        catches:\n          - steps: []\n        params:\n          mode: parallel\n          acts:\n            - uses: acts.core.irq\n              key: x\n            - uses: acts.core.irq\n              key: y\n  - id: s2\n    acts:\n      - uses: acts.core.irq\n        key: z\n";
 /// the same with the empty catch on the step around the block
 pub const W9B: &str = "id: w9b\nsteps:\n  - id: s1\n    catches:\n      - steps: []\n    acts:\n      - uses: acts.core.block\n        key: blk\n        params:\n          mode: parallel\n          acts:\n            - uses: acts.core.irq\n              key: x\n            - uses: acts.core.irq\n              key: y\n  - id: s2\n    acts:\n      - uses: acts.core.irq\n        key: z\n";
+/// an act whose step is followed by a step that fans out into two parallel branches (for cancel)
+pub const W10: &str = "id: w10\nsteps:\n  - id: s1\n    acts:\n      - uses: acts.core.irq\n        key: a1\n  - id: s2\n    branches:\n      - id: b1\n        if: \"true\"\n        steps:\n          - id: s21\n            acts:\n              - uses: acts.core.irq\n                key: a2\n      - id: b2\n        if: \"true\"\n        steps:\n          - id: s22\n            acts:\n              - uses: acts.core.irq\n                key: a3\n  - id: s3\n";
 /// branches without steps (a taken one, a needs branch and an else branch) before a step with an open act
 pub const W8: &str = "id: w8\nsteps:\n  - id: s1\n    branches:\n      - id: b0\n        else: true\n      - id: b1\n        if: \"true\"\n        steps:\n          - id: s11\n            acts:\n              - uses: acts.core.irq\n                key: a1\n      - id: b2\n        needs: [b1]\n      - id: b3\n        if: \"true\"\n  - id: s2\n    acts:\n      - uses: acts.core.irq\n        key: a2\n";
 /// rework loop: the guarded branch increments `a` and jumps back to the first step
@@ -123,7 +125,9 @@ fn scenarios_of(prop: &str, tier: Tier) -> Vec<HScn> {
         }
         "C03" => {
             // (workflow, keep_processes, deviation bound in the quick tier)
-            let set: [(&str, bool, usize); 15] = [
+            let set: [(&str, bool, usize); 17] = [
+                (W10, false, 0),
+                (W10, true, 0),
                 (W8, false, 1),
                 (W8, true, 0),
                 (W9B, false, 0),
@@ -143,13 +147,13 @@ fn scenarios_of(prop: &str, tier: Tier) -> Vec<HScn> {
             for (y, keep, dq) in set {
                 let mut c = full_cfg(2);
                 // cancel is aimed at acts that are already completed
-                c.terminal_targets = keep || y == W7;
+                c.terminal_targets = keep || y == W7 || y == W10;
                 v.push(hscn("par", y, keep, c, Some(if q { dq } else { 1 }), 48));
                 if !q {
                     let mut c = full_cfg(3);
                     c.terminal_targets = false;
                     // three actions with a racing deviation only on the small workflows
-                    let small = y == W6 || y == W7 || y == W8 || y == W9B;
+                    let small = y == W6 || y == W7 || y == W8 || y == W9B || y == W10;
                     v.push(hscn("par", y, keep, c, Some(if keep || !small { 0 } else { 1 }), 48));
                 }
             }
